@@ -7,7 +7,11 @@ from gen import *
 THEOREMS = ["C15_len_u8", "C15_len_be16", "C15_len_be32", "C15_len_be64", "C15_int_helpers", "C15_tls_record",
             "C15_tls_extension", "C15_tls_extensions_sequence", "C15_tls_ciphers", "C15_client_hello_framing",
             "C15_server_hello_framing", "C15_client_hello_roundtrip", "C15_server_hello_roundtrip", "C15_sni",
-            "C15_certificates", "C15_dhcp_option", "C15_dhcp_options_sequence", "C15_dns_rr"]
+            "C15_certificates", "C15_dhcp_option", "C15_dhcp_options_sequence", "C15_dns_rr",
+            # every content size: exact output, "fits" is necessary as well as sufficient, explicit nesting (Props/C15b.v)
+            "C15b_len_u8_exact", "C15b_len_be16_exact", "C15b_len_u8_iff", "C15b_len_be16_iff", "C15b_len_nested"]
+PROPS = ["C15", "C15b"]
+VO = ["theories/Props/C15.vo", "theories/Props/C15b.vo"]
 RULE = ("one structure per program, sent as the payload of ipv4::udp::unicast (structures over 60000 bytes through "
         "io::bufio(...).read(60000) in several datagrams): every helper x content sizes 0, 1, 255, 256 and -- for the "
         "16/24/32/64-bit fields -- 65535 and 65536 (from data files) x 0..4 collected parts; all 16 present/absent "
